@@ -412,7 +412,13 @@ def r12_5(ctx):
         ctx.check(oki, f.fq, "; ".join(short(i[0]) for i in incs) or "no increment", where, "exactly one unit increment per element",
                   f"per-element increments are {[(short(i[0]), i[1]) for i in incs]}: completed would not equal the number of elements yielded")
         if oki and yields:
-            ctx.check(incs[0][0].lineno > yields[0].lineno, f.fq, "order yield/increment", where, "the element is counted after it has been yielded",
+            def _pos(node_):
+                # position of the loop-body statement that holds the node (positions, not line numbers: expanded helpers share a line)
+                for i_, b_ in enumerate(lp.body):
+                    if any(y_ is node_ for y_ in ast.walk(b_)):
+                        return i_
+                return -1
+            ctx.check(_pos(incs[0][0]) > _pos(yields[0]), f.fq, "order yield/increment", where, "the element is counted after it has been yielded",
                       "the increment happens before the yield: an element is counted although the consumer may never receive it")
         ctx.check(not lp.orelse and not any(isinstance(y, (ast.Break, ast.Continue)) for b in lp.body for y in ast.walk(b)), f.fq, "no break/continue", where,
                   "no break/continue skips elements", "loop body can skip the increment or remaining elements (break/continue/else)")
